@@ -20,6 +20,11 @@ fn parse_outcome(src: &'static str) -> Run {
     });
     rx.recv_timeout(Duration::from_secs(5)).unwrap_or(Run::Hung)
 }
+/// texts of all BIN_EXPR nodes of the tree of `src`
+fn bin_exprs(src: &str) -> Vec<String> {
+    let parse = oq3_syntax::SourceFile::parse(src);
+    parse.syntax_node().descendants().filter(|n| n.kind() == oq3_syntax::SyntaxKind::BIN_EXPR).map(|n| n.text().to_string()).collect()
+}
 fn lex_errors(src: &str) -> usize { oq3_parser::LexedStr::new(src).errors().count() }
 
 
@@ -46,6 +51,32 @@ fn table() -> Vec<(&'static str, Check)> {
         ("C20-const-cross", || {
             let r = promote_types(&Type::Int(Some(8), c(false)), &Type::Float(Some(32), c(true)));
             (r.is_const(), format!("promote_types(int[8], const float[32]) = {:?}", r))
+        }),
+        ("C05-power", || {
+            let b = bin_exprs("float r = a ** b ** c;");
+            let b2 = bin_exprs("float r = a * b ** c;");
+            (b.iter().any(|t| t == "a ** b") && b2.iter().any(|t| t == "a * b"), format!("BIN_EXPR nodes: {:?} / {:?}", b, b2))
+        }),
+        ("C05-eq-rel", || {
+            let b = bin_exprs("bool r = a == b < c;");
+            (b.iter().any(|t| t == "a == b"), format!("BIN_EXPR nodes of `a == b < c`: {:?}", b))
+        }),
+        ("C05-bitwise", || {
+            let b = bin_exprs("bool r = a == b & c;");
+            (b.iter().any(|t| t == "b & c"), format!("BIN_EXPR nodes of `a == b & c`: {:?}", b))
+        }),
+        ("C12-expr-entry-error-node", || {
+            let lexed = oq3_parser::LexedStr::new("1 2");
+            let out = oq3_parser::TopEntryPoint::Expr.parse(&lexed.to_input());
+            let mut err_nodes = 0; let mut errors = 0;
+            for step in out.iter() {
+                match step {
+                    oq3_parser::Step::Enter { kind } if kind == oq3_parser::SyntaxKind::ERROR => err_nodes += 1,
+                    oq3_parser::Step::Error { .. } => errors += 1,
+                    _ => (),
+                }
+            }
+            (err_nodes > 0 && errors == 0, format!("TopEntryPoint::Expr on `1 2`: {err_nodes} ERROR node(s), {errors} diagnostic(s)"))
         }),
         ("C20-const-eq", || {
             let r = promote_types(&Type::Int(Some(8), c(true)), &Type::Int(Some(8), c(false)));
